@@ -3,4 +3,8 @@ coq/Raft, correspondence of that model with the implementation, runtime monitor 
 from props import raftcommon as R
 
 PROPS = ('C06',)
-correspondence, search, replay = R.standard_module('C06', PROPS)
+# a wrong command or a wrong object state on a node that was restarted from its journal is a C06 violation as well
+# (records that follow a known finding's trigger are attributed by the monitor before they get here)
+correspondence, search, replay = R.standard_module('C06', PROPS, {'journal_trace': ('C01', 'C02'), 'killpoint_trace': ('C01', 'C02'),
+                                                                  'scenario:meta_ahead_restart': ('C01', 'C02'),
+                                                                  'scenario:d10': ('C01', 'C02')})
